@@ -19,19 +19,20 @@ PROP = {
         "IdenaModel.Registry.registry_matches_ledger_partial",
         "IdenaModel.Registry.online_not_delegator",
     ],
-    "channels": [{"name": "C10", "exe": "oracle_c10"}],
+    "channels": [{"name": "C10", "exe": "oracle_c10"}, {"name": "C10H", "exe": "oracle_c10"}],
     "trusted_base": [
         "IAVL tree of the identity state modelled as a strictly sorted association list (IterateIdentities ascending by key)",
         "20-byte addresses embedded order-preservingly into Nat by the harness (big-endian in the first four bytes)",
         "rand.Perm seeded from (seed, round, step) in GetOnlineValidators is a parameter of the model: the harness recomputes the permutation with the same stdlib calls and passes it on the op line",
     ],
     "assumptions": [
-        "every non-deleted value of an identity-state diff that carries a delegatee is validated (DiffWF; shown to be maintained by the modelled block-level registry writes, see wf_preserved; not droppable: update_ne_load_nonWF)",
+        "every non-deleted value of an identity-state diff that carries a delegatee is validated (DiffWF). Proved to be maintained by the modelled registry writes of block application (wf_preserved, history_wf) under two guards that live outside the registry (no status switch for an identity with a ledger delegatee: validation.go:561-564; an identity with a ledger delegatee is offline at the end of an epoch: blockchain.go:1915), both shown necessary (guard_needed_*); observed on every block of the real-chain histories (channel C10H: no non-WF diff, no online delegator). Not droppable: update_ne_load_nonWF (F7)",
+        "registry_matches_ledger is proved for the validated flag and the delegatee in a registry-level joint event model (registry_matches_ledger_partial); 'only validated identities or pools are online' needs the ledger model and is checked after every block of the real-chain histories instead",
         "sequential use of the cache (the mutex is not modelled)",
     ],
 }
 META = {
-    "text": "Lean 4 proof that the incrementally maintained validator view (UpdateFromIdentityStateDiff) and the view rebuilt from the stored registry (loadValidNodes) answer every getter identically for every registry and every well-formed diff (any number of blocks, any enumeration order of the Go hash sets), with the well-formedness invariant shown to be preserved by the registry writes of block application; tied to core/validators and core/state by differential runs of the real IdentityStateDB + ValidatorsCache against the compiled model and by an independent incremental-vs-rebuild oracle.",
+    "text": "Lean 4 proof that the incrementally maintained validator view (UpdateFromIdentityStateDiff) and the view rebuilt from the stored registry (loadValidNodes) answer every getter identically for every registry and every well-formed diff (any number of blocks, any enumeration order of the Go hash sets), with the well-formedness invariant shown to be preserved by the registry writes of block application and the validated flag / delegatee shown to mirror the ledger; tied to core/validators, core/state and blockchain by differential runs of the real IdentityStateDB + ValidatorsCache against the compiled model (synthetic adversarial diffs, and the stored identity diffs of real chains with epochs, delegations, kills), by an independent incremental-vs-rebuild oracle and by a registry-vs-ledger oracle after every real block.",
     "design_ref": "DESIGN.md 5 (C10), 4 (M-Registry), 6 (F7)",
     "note": "Trusted: Lean kernel (+propext, Classical.choice, Quot.sound), IAVL iteration order, the Go harness and overlay. The registry-vs-ledger part is proved for a registry-level event model; agreement of that event model with block application on real chains is left to the history-level correspondence.",
     "technique": "Lean 4 representation-invariant proof (abstraction function + per-step invariant) + differential correspondence against the real Go code",
